@@ -46,6 +46,8 @@ SCENARIOS = {
     "link-leaves-universe": (["a", "b"], ["x"], [("DirectedEdge", "a", "b"), ("DirectedEdge", "a", "x")], {}, "default"),
     "title-format": (["a", "b"], [], [("DirectedEdge", "a", "b")], {}, "title-format"),
     "title-format-property": (["a", "b"], [], [("DirectedEdge", "a", "b"), ("UnDirectedEdge", "b", "b")], {}, "title-format-property"),
+    "subclass-with-its-own-title": (["a", "b", "c"], [], [("DirectedEdge", "b", "a"), ("DirectedEdge", "a", "b"), ("UnDirectedEdge", "c", "a"), ("DirectedEdge", "a", "a")], {"a": "SymVert", "c": "SymVert"}, "subclass-title"),
+    "title-format-with-empty-show-attrs": (["a", "b"], [], [("DirectedEdge", "a", "b")], {}, "title-format-empty-show-attrs"),
     "falsy-vertices": (["a", "b", "c"], [], [("DirectedEdge", "a", "b"), ("UnDirectedEdge", "c", "a"), ("DirectedEdge", "c", "c")], {"a": "FalsyV", "c": "FalsyV"}, "default"),
 }
 
@@ -75,6 +77,23 @@ def options(h, g, variant):
                         p[1] = "T_{name}"
                     if p[0] == "show_attrs":
                         p[1] = Seq(["name"], "list")
+    elif variant == "subclass-title":
+        # the subclass is configured with a title format of its own; the base class keeps the default ($id)
+        cfg = vert_cfg("class")
+        for p in cfg.pairs:
+            if p[0] == "title_format":
+                p[1] = "S_{name}"
+            if p[0] == "show_attrs":
+                p[1] = Seq(["name"], "list")
+        opts.pairs.append([g["SymVert"], cfg])
+    elif variant == "title-format-empty-show-attrs":
+        for k, v in opts.pairs:
+            if k is g["Vertex"]:
+                for p in v.pairs:
+                    if p[0] == "title_format":
+                        p[1] = "T_{name}"
+                    if p[0] == "show_attrs":
+                        p[1] = Seq([], "list")
     elif variant == "title-format-property":
         # the title is formatted from an attribute that is a property of the class (uid), not a dynamic instance attribute
         for k, v in opts.pairs:
@@ -198,11 +217,11 @@ def check(h, out, members, outside, links, V, L, opts, variant):
             i0 = next(i for i, x in enumerate(l) if not isinstance(x, str))
             i1 = next(i for i, x in enumerate(l) if not isinstance(x, str) and i > i0)
             mid = "".join(x for x in l[i0 + 1:i1] if isinstance(x, str))
-            rel.append((l[i0].key(), " " + mid.strip() + " ", l[i1].key()))
+            rel.append((tnorm(l[i0].key()), " " + mid.strip() + " ", tnorm(l[i1].key())))
         elif len(atoms) >= 1 and len(l) >= 2 and isinstance(l[0], str) and l[0].strip() in typewords and l[0].endswith(" ") and not isinstance(l[1], str):
             # a declaration: `<type> <title> ...` (the rest of the line - stereotype, alias, braces - is layout, not specified)
             rest = "".join(x for x in l[l.index(atoms[0]) + 1:] if isinstance(x, str))
-            decl.append((l[0].lstrip(), atoms[0].key(), rest))
+            decl.append((l[0].lstrip(), tnorm(atoms[0].key()), rest))
     # expected declarations
     title = {}
     for v in members:
@@ -238,7 +257,43 @@ def check(h, out, members, outside, links, V, L, opts, variant):
     return None
 
 
+def _format_kwargs(key):
+    """keyword arguments of a str.format() atom inside a title key, as {name: hashable value}; None if the key holds no such atom"""
+    if isinstance(key, tuple):
+        if len(key) == 4 and key[0] == "StrFormat" and isinstance(key[3], tuple) and key[3][:1] == ("dict",):
+            return {p[0]: p[1] for p in key[3][1:] if isinstance(p, tuple) and len(p) == 2}
+        for x in key:
+            r = _format_kwargs(x)
+            if r is not None:
+                return r
+    return None
+
+
+def tnorm(key):
+    """a title formatted from attribute values is identified by its format string and the `name` that went in (the other keyword
+    arguments - every attribute the show_attrs pattern matched - may hold freshly bound methods and differ between two renderings)"""
+    kw = _format_kwargs(key)
+    if kw is not None and "name" in kw:
+        def fmt(k):
+            if isinstance(k, tuple):
+                if len(k) == 4 and k[0] == "StrFormat":
+                    return k[1]
+                for x in k:
+                    r = fmt(x)
+                    if r is not None:
+                        return r
+            return None
+        return ("formatted-title", fmt(key), kw["name"])
+    return key
+
+
 def refers_to(key, obj):
+    if isinstance(key, tuple) and key[:1] == ("formatted-title",):
+        return key[2] == obj.name
+    kw = _format_kwargs(key)
+    if kw is not None and "name" in kw:
+        return kw["name"] == obj.name      # a title formatted from the vertex's attributes: the vertex is the one whose `name` went in
+
     def walk(k):
         if isinstance(k, tuple):
             if len(k) == 2 and k[0] == "id" and k[1] == id(obj):
